@@ -52,10 +52,12 @@ Judge(i, r, m0, m1) ==
            Chk(Want, i, "C29_ResetKeepsRoots", C29_ResetKeepsRoots(m0, RootsOf(r.alpha, r.beta)))
         \o Chk(Want, i, "C11_Halts", C11_Roots(m0, RootsOf(r.alpha, r.beta)))
       ELSE <<>>)
-  \o (IF (r.ev = "Cmd" /\ r.phase = "timeout") \/ r.ev = "CaseAborted" \/ (r.ev = "End" /\ ~r.allBack)
+  \o (IF (r.ev = "Cmd" /\ r.phase = "timeout") \/ (r.ev = "End" /\ ~r.allBack)
       THEN Chk(Want, i, "C29_AllReturn", FALSE) \o Chk(Want, i, "C11_AllReturn", FALSE) ELSE <<>>)
   \o (IF r.ev \notin KnownEv THEN Chk(Want, i, "C29_TraceAccepted", FALSE) \o Chk(Want, i, "C11_TraceAccepted", FALSE) ELSE <<>>)
-  \o (IF r.ev = "Infra" THEN <<Fail(i, "DriverInfra")>> ELSE <<>>)
+  \* the case process itself died or was killed: machinery trouble, counted, never a verdict (every wait inside a case
+  \* has its own watchdog whose expiry is journalled as a Cmd timeout)
+  \o (IF r.ev \in {"Infra", "CaseAborted"} THEN <<Fail(i, "DriverInfra")>> ELSE <<>>)
 
 Drift(r, p) == IF r.ev = "Cmd" /\ r.phase = "return" /\ r.id \in DOMAIN p /\ p[r.id] # r.result THEN 1 ELSE 0
 
